@@ -261,4 +261,311 @@ theorem distinct_wires_of_compatible (c : Circuit) (e1 e2 : Edge) (hv : c.validR
   · exact h12 (reach_along_wire c r1 p1 p2 hv h h2)
   · exact h21 (reach_along_wire c r1 p2 p1 hv h h1)
 
+/-! ## 4. every mutation move preserves the invariant -/
+
+theorem mem_edgesOf {c : Circuit} {t : RegType} {e : Edge} (h : e ∈ c.edgesOf t) :
+    e.r.ty = t ∧ c.validReg e.r = true ∧ e.pos ≤ (c.wire e.r).length := by
+  simp only [Circuit.edgesOf, Circuit.regsOf, List.mem_flatMap, List.mem_map, List.mem_range] at h
+  obtain ⟨r, ⟨i, hi, rfl⟩, p, hp, rfl⟩ := h
+  refine ⟨rfl, ?_, by simp only; omega⟩
+  simp [Circuit.validReg, hi]
+
+theorem no_back_edge {c : Circuit} (hac : c.Acyclic) {a b : V} (h : c.E a b) : ¬ ReflTransGen c.E b a :=
+  fun hba => hac a (TransGen.head' h hba)
+
+theorem src_of_pos_zero (c : Circuit) (e : Edge) (h : e.pos = 0) : c.src e = V.inp e.r := by
+  simp [Circuit.src, h]
+
+theorem pos_ge_one_of_src_not_inp (c : Circuit) (e : Edge) (h : (c.src e).isInp = false) : 1 ≤ e.pos := by
+  rcases Nat.eq_zero_or_pos e.pos with h0 | h0
+  · rw [src_of_pos_zero c e h0] at h; simp [V.isInp] at h
+  · exact h0
+
+theorem src_not_inp_of_kindIs (c : Circuit) (e : Edge) (k : Kind) (h : c.kindIs (c.src e) k = true) :
+    (c.src e).isInp = false := by
+  cases hs : c.src e with
+  | inp r => simp [Circuit.kindIs, Circuit.kindOfV, hs] at h
+  | out r => rfl
+  | op n => rfl
+
+theorem reg_eta_e (r : Reg) (h : r.ty = .e) : r = ⟨.e, r.idx⟩ := by
+  rcases r with ⟨ty, i⟩; simp only at h; subst h; rfl
+
+theorem insert1_preserves (c : Circuit) (e : Edge) (op : Op) (hinv : c.EmitInv) (hv : c.validReg e.r = true)
+    (hty : e.r.ty ≠ .c) (hq : op.q = [e.r]) (hph : e.r.ty = .p → 1 ≤ e.pos ∧ op.kind.isGate1 = true) :
+    (c.insertAt op [e]).EmitInv := by
+  obtain ⟨hwf, hac, hem⟩ := hinv
+  have hnd : (([e] : List Edge).map (·.r)).Nodup := by simp
+  refine ⟨?_, ?_, ?_⟩
+  · refine WF_insertAt c op [e] hwf hnd ?_ ?_ ?_ ?_
+    · intro e' he'; simp only [List.mem_singleton] at he'; subst he'; exact hv
+    · intro r _; rw [hq]; simp
+    · intro i hi
+      simp only [List.map_cons, List.map_nil, List.mem_singleton] at hi
+      exact absurd (by rw [← hi]) hty
+    · intro r hr
+      rw [hq, List.mem_singleton] at hr
+      subst hr; exact ⟨hv, hty⟩
+  · refine acyclic_insertAt c op [e] hwf hac hnd ?_
+    intro e1 he1 e2 he2
+    simp only [List.mem_singleton] at he1 he2
+    rw [he1, he2]
+    exact no_back_edge hac (E_src_dst c e hv)
+  · refine EmitC_insertAt c op [e] hwf hem hnd ?_ ?_
+    · intro r1 r2 h; rw [hq] at h; cases h
+    · intro e' he' hp
+      simp only [List.mem_singleton] at he'; subst he'
+      exact ⟨(hph hp).1, Or.inl ⟨(hph hp).2, hq⟩⟩
+
+theorem insert2_preserves (c : Circuit) (e1 e2 : Edge) (op : Op) (hinv : c.EmitInv)
+    (hv1 : c.validReg e1.r = true) (hv2 : c.validReg e2.r = true)
+    (hp1 : e1.pos ≤ (c.wire e1.r).length) (hp2 : e2.pos ≤ (c.wire e2.r).length)
+    (hq : op.q = [e1.r, e2.r]) (hty1 : e1.r.ty = .e) (hty2 : e2.r.ty ≠ .c)
+    (hne : e2 ≠ e1) (h12 : ¬ ReflTransGen c.E (c.dst e1) (c.src e2)) (h21 : ¬ ReflTransGen c.E (c.dst e2) (c.src e1))
+    (hph : e2.r.ty = .p → 1 ≤ e2.pos ∧ op.kind.isClassicalControlled = true) :
+    (c.insertAt op [e1, e2]).EmitInv := by
+  obtain ⟨hwf, hac, hem⟩ := hinv
+  have hrr : e1.r ≠ e2.r := distinct_wires_of_compatible c e1 e2 hv1 hp1 hp2 hne h12 h21
+  have hnd : (([e1, e2] : List Edge).map (·.r)).Nodup := by simp [hrr]
+  have hty1' : e1.r.ty ≠ .c := by rw [hty1]; simp
+  refine ⟨?_, ?_, ?_⟩
+  · refine WF_insertAt c op [e1, e2] hwf hnd ?_ ?_ ?_ ?_
+    · intro e' he'
+      simp only [List.mem_cons, List.not_mem_nil, or_false] at he'
+      rcases he' with rfl | rfl <;> assumption
+    · intro r _; rw [hq]; simp
+    · intro i hi
+      simp only [List.map_cons, List.map_nil, List.mem_cons, List.not_mem_nil, or_false] at hi
+      rcases hi with hi | hi
+      · exact absurd (by rw [← hi]) hty1'
+      · exact absurd (by rw [← hi]) hty2
+    · intro r hr
+      rw [hq] at hr
+      simp only [List.mem_cons, List.not_mem_nil, or_false] at hr
+      rcases hr with rfl | rfl
+      · exact ⟨hv1, hty1'⟩
+      · exact ⟨hv2, hty2⟩
+  · refine acyclic_insertAt c op [e1, e2] hwf hac hnd ?_
+    intro a ha b hb
+    simp only [List.mem_cons, List.not_mem_nil, or_false] at ha hb
+    rcases ha with rfl | rfl <;> rcases hb with rfl | rfl
+    · exact no_back_edge hac (E_src_dst c _ hv1)
+    · exact h21
+    · exact h12
+    · exact no_back_edge hac (E_src_dst c _ hv2)
+  · refine EmitC_insertAt c op [e1, e2] hwf hem hnd ?_ ?_
+    · intro r1 r2 h
+      rw [hq] at h
+      simp only [List.cons.injEq, and_true] at h
+      rintro ⟨hp, _⟩
+      rw [← h.1, hty1] at hp
+      cases hp
+    · intro e' he' hp
+      simp only [List.mem_cons, List.not_mem_nil, or_false] at he'
+      rcases he' with rfl | rfl
+      · rw [hty1] at hp; cases hp
+      · refine ⟨(hph hp).1, Or.inr ⟨(hph hp).2, e1.r.idx, ?_⟩⟩
+        rw [hq, ← reg_eta_e e1.r hty1]
+
+theorem mem_replaceCands {c : Circuit} {t : RegType} {n : Nat} (h : n ∈ c.replaceCands t) :
+    ∃ gs r cr fx, c.node n = some ⟨.wrapper gs, [r], cr, fx⟩ ∧ r.ty = t := by
+  simp only [Circuit.replaceCands, List.mem_filter] at h
+  obtain ⟨_, h⟩ := h
+  split at h
+  · rename_i gs r cr fx hnode
+    exact ⟨gs, r, cr, fx, hnode, by simpa using h⟩
+  · cases h
+
+theorem stepReplace_preserves (c : Circuit) (t : RegType) (ch : Choice) (g : Nat) (c' : Circuit)
+    (hinv : c.EmitInv) (h : c.stepReplace t ch g = some c') : c'.EmitInv := by
+  unfold Circuit.stepReplace at h
+  split at h
+  · split at h
+    · cases h; exact hinv
+    · cases h
+  · cases ch with
+    | node n =>
+      simp only at h
+      split at h
+      · rename_i hcond
+        obtain ⟨gs, r, cr, fx, hnode, hrt⟩ := mem_replaceCands hcond.1
+        rw [hnode] at h
+        simp only [Circuit.replaceOpE, hnode] at h
+        split at h
+        · cases h
+        · rename_i hne
+          simp only [exceptToOption, Option.some.injEq] at h
+          subst h
+          have hcr : cr = [] := by
+            cases cr with
+            | nil => rfl
+            | cons a l => exact absurd (Or.inr (by simp [mkWrapper])) hne
+          obtain ⟨hwf, hac, hem⟩ := hinv
+          refine ⟨WF_setNode c n _ _ hwf hnode (by simp [mkWrapper]) (by simp [mkWrapper, hcr]),
+                  acyclic_setNode c n _ hac,
+                  EmitC_setNode c n _ _ hem hnode (by simp [mkWrapper]) rfl rfl ⟨r, rfl⟩⟩
+      · cases h
+    | none => simp at h
+    | edge e => simp at h
+    | pair e1 e2 => simp at h
+
+theorem mem_removeCands {c : Circuit} {n : Nat} (h : n ∈ c.removeCands) :
+    ∃ op, c.node n = some op ∧ op.fixed = false := by
+  simp only [Circuit.removeCands, List.mem_filter] at h
+  obtain ⟨_, h⟩ := h
+  split at h
+  · rename_i op hnode
+    exact ⟨op, hnode, by simpa using h⟩
+  · cases h
+
+theorem removeOp_preserves (c : Circuit) (n : Nat) (hinv : c.EmitInv) (h : n ∈ c.removeCands) :
+    (c.removeOp n).EmitInv := by
+  obtain ⟨op, hnode, hnf⟩ := mem_removeCands h
+  obtain ⟨hwf, hac, hem⟩ := hinv
+  exact ⟨WF_removeOp c n hwf, acyclic_removeOp c n hac, EmitC_removeOp c n op hem hnode hnf⟩
+
+
+theorem insertAtE_one (c : Circuit) (op : Op) (e : Edge) (c' : Circuit) (hq : op.q.length = 1)
+    (h : exceptToOption (c.insertAtE op [e]) = some c') : c' = c.insertAt op [e] := by
+  simp [Circuit.insertAtE, hq, exceptToOption] at h
+  exact h.symm
+
+theorem insertAtE_two (c : Circuit) (op : Op) (e1 e2 : Edge) (c' : Circuit) (hq : op.q.length = 2)
+    (h : exceptToOption (c.insertAtE op [e1, e2]) = some c') : c' = c.insertAt op [e1, e2] := by
+  simp [Circuit.insertAtE, hq, exceptToOption] at h
+  exact h.symm
+
+theorem stepPair_preserves (c : Circuit) (kind : Kind) (cr : List Nat) (e1 e2 : Edge) (c' : Circuit)
+    (hinv : c.EmitInv) (t2 : RegType) (ht2 : t2 ≠ .c)
+    (h1 : e1 ∈ c.edgesOf .e) (h2 : e2 ∈ c.edgesOf t2)
+    (hcl : (c.incompatInfo e1).closed = true) (hinc : c.isIncompatible e1 (c.incompatInfo e1) e2 = false)
+    (hph : t2 = .p → 1 ≤ e2.pos ∧ kind.isClassicalControlled = true)
+    (h : c.stepPair kind cr e1 e2 = some c') : c'.EmitInv := by
+  unfold Circuit.stepPair at h
+  split at h
+  · have := insertAtE_two c _ e1 e2 c' rfl h
+    subst this
+    obtain ⟨hty1, hv1, hp1⟩ := mem_edgesOf h1
+    obtain ⟨hty2, hv2, hp2⟩ := mem_edgesOf h2
+    obtain ⟨hne, h12, h21⟩ := compatible_of_not_incompatible c e1 e2 hv2 hcl hinc
+    exact insert2_preserves c e1 e2 _ hinv hv1 hv2 hp1 hp2 rfl hty1 (by rw [hty2]; exact ht2) hne h12 h21
+      (fun hp => hph (by rw [← hty2]; exact hp))
+  · cases h
+
+/-- **every move preserves the invariant** -/
+theorem step_preserves (c : Circuit) (m : Move) (c' : Circuit) (hinv : c.EmitInv) (h : c.step m = some c') :
+    c'.EmitInv := by
+  rcases m with ⟨t, ch, g⟩
+  cases t <;> simp only [Circuit.step] at h
+  · -- add_emitter_one_qubit_op
+    split at h
+    · exact stepReplace_preserves c _ ch g c' hinv h
+    · cases ch with
+      | edge e =>
+        simp only at h
+        split at h
+        · rename_i hcond
+          have := insertAtE_one c _ e c' rfl h
+          subst this
+          have hmem := (List.mem_filter.mp hcond.1).1
+          obtain ⟨hty, hv, _⟩ := mem_edgesOf hmem
+          exact insert1_preserves c e _ hinv hv (by rw [hty]; simp) rfl (fun hp => by rw [hty] at hp; cases hp)
+        · cases h
+      | none => simp at h
+      | node n => simp at h
+      | pair e1 e2 => simp at h
+  · -- add_photon_one_qubit_op
+    split at h
+    · exact stepReplace_preserves c _ ch g c' hinv h
+    · cases ch with
+      | edge e =>
+        simp only at h
+        split at h
+        · rename_i hcond
+          have := insertAtE_one c _ e c' rfl h
+          subst this
+          have hf := List.mem_filter.mp hcond.1
+          obtain ⟨hty, hv, _⟩ := mem_edgesOf hf.1
+          have hk : c.kindIs (c.src e) .cnot = true := by
+            have := hf.2
+            simp only [Bool.and_eq_true] at this
+            exact this.1
+          exact insert1_preserves c e _ hinv hv (by rw [hty]; simp) rfl
+            (fun _ => ⟨pos_ge_one_of_src_not_inp c e (src_not_inp_of_kindIs c e _ hk), rfl⟩)
+        · cases h
+      | none => simp at h
+      | node n => simp at h
+      | pair e1 e2 => simp at h
+  · exact stepReplace_preserves c _ ch g c' hinv h
+  · exact stepReplace_preserves c _ ch g c' hinv h
+  · -- add_emitter_cnot
+    cases ch with
+    | none =>
+      simp only at h
+      split at h
+      · cases h; exact hinv
+      · cases h
+    | pair e1 e2 =>
+      simp only at h
+      split at h
+      · rename_i hcond
+        obtain ⟨hcl, he1, he2, hinc⟩ := hcond
+        exact stepPair_preserves c .cnot [] e1 e2 c' hinv .e (by simp)
+          (List.mem_filter.mp he1).1 (List.mem_filter.mp he2).1 hcl hinc (fun hp => by cases hp) h
+      · cases h
+    | node n => simp at h
+    | edge e => simp at h
+  · -- remove_op
+    split at h
+    · split at h
+      · cases h; exact hinv
+      · cases h
+    · cases ch with
+      | node n =>
+        simp only at h
+        split at h
+        · rename_i hcond
+          cases h
+          exact removeOp_preserves c n hinv hcond
+        · cases h
+      | none => simp at h
+      | edge e => simp at h
+      | pair e1 e2 => simp at h
+  · -- add_measurement_cnot_and_reset
+    cases ch with
+    | none =>
+      simp only at h
+      split at h
+      · cases h; exact hinv
+      · cases h
+    | pair e1 e2 =>
+      simp only at h
+      split at h
+      · rename_i hcond
+        obtain ⟨hcl, he1, he2, hinc⟩ := hcond
+        have hf2 := List.mem_filter.mp he2
+        have hni : (c.src e2).isInp = false := by
+          have := hf2.2
+          simp only [Bool.and_eq_true, Bool.not_eq_true'] at this
+          exact this.2
+        exact stepPair_preserves c .mcr [0] e1 e2 c' hinv .p (by simp)
+          (List.mem_filter.mp he1).1 hf2.1 hcl hinc
+          (fun _ => ⟨pos_ge_one_of_src_not_inp c e2 hni, rfl⟩) h
+      · cases h
+    | node n => simp at h
+    | edge e => simp at h
+
+/-- … hence every finite history of moves -/
+theorem run_preserves (c : Circuit) (ms : List Move) (c' : Circuit) (hinv : c.EmitInv) (h : c.run ms = some c') :
+    c'.EmitInv := by
+  induction ms generalizing c with
+  | nil => simp only [Circuit.run, Option.some.injEq] at h; subst h; exact hinv
+  | cons m ms ih =>
+    simp only [Circuit.run] at h
+    cases hs : c.step m with
+    | none => rw [hs] at h; cases h
+    | some c1 =>
+      rw [hs] at h
+      exact ih c1 (step_preserves c m c1 hinv hs) h
+
 end Graphiq.Wire
